@@ -15,3 +15,4 @@ void h_segment_os_alloc(void) {
   VC_REACH();
 }
 void h_segment_os_free(void) { g_rc0 = vc_nondet_size("g_rc0"); mi_segment_t* s; mi_segments_tld_t* tld; mi_segment_os_free(s, tld); VC_REACH(); }
+void h_track_size(void) { mi_segments_tld_t* tld; mi_segments_track_size(vc_nondet_long("segment_size"), tld); VC_REACH(); }
